@@ -376,6 +376,12 @@ fn days_in_month(y: i32, m: u8) -> u8 {
     }
 }
 
+/// a field value that only looks valid after a narrowing cast: v + k * 2^w, w in {8, 16, 32, 64}
+fn wrapped(v: u32, t: &mut Tape) -> u128 {
+    let w = *t.pick(&[8u32, 16, 32, 64]);
+    v as u128 + ((1 + t.below(3)) as u128) * (1u128 << w)
+}
+
 fn gen_date_fields(t: &mut Tape) -> (String, Option<(i32, u8, u8)>, String, bool) {
     // returns (text, valid value, class, taste-band)
     let y: i32 = match t.below(8) {
@@ -388,27 +394,38 @@ fn gen_date_fields(t: &mut Tape) -> (String, Option<(i32, u8, u8)>, String, bool
         6 => *t.pick(&[1900, 2000, 2024, 2023, 2100, 1600]),
         _ => 1 + t.below(9999) as i32,
     };
-    let m: u32 = match t.below(6) {
+    let mut m: u128 = match t.below(7) {
         0 => 0,
         1 => 13,
         2 => 12,
         3 => 1,
-        _ => 1 + t.below(12) as u32,
+        _ => 1 + t.below(12) as u128,
     };
     let dim = if (1..=12).contains(&m) { days_in_month(y, m as u8) as u32 } else { 31 };
-    let d: u32 = match t.below(7) {
+    let mut d: u128 = match t.below(8) {
         0 => 0,
-        1 => dim,
-        2 => dim + 1,
+        1 => dim as u128,
+        2 => dim as u128 + 1,
         3 => 1,
         4 => 32,
-        _ => 1 + t.below(dim.max(1) as usize) as u32,
+        _ => 1 + t.below(dim.max(1) as usize) as u128,
     };
-    let two = |v: u32, t: &mut Tape| if v < 10 && t.flag() { format!("0{}", v) } else { v.to_string() };
-    let text = format!("{:04}-{}-{}", y, two(m, t), two(d, t));
-    let taste = y == 0 || y >= 10000;
-    let valid = (1..=12).contains(&m) && d >= 1 && d <= dim;
-    let class = format!("{}{}{}", if valid { "valid" } else { "invalid" }, if taste { ".year-band" } else { "" }, if m == 2 && d >= 28 { ".feb-end" } else { "" });
+    // wrap magnitudes: a valid field value plus a multiple of 2^8 / 2^16 / 2^32 / 2^64
+    let mut wrap = false;
+    let mut ytext = format!("{:04}", y);
+    if t.ratio(1, 8) && (1..=12).contains(&m) && d >= 1 && d <= dim as u128 {
+        wrap = true;
+        match t.below(3) {
+            0 => m = wrapped(m as u32, t),
+            1 => d = wrapped(d as u32, t),
+            _ => ytext = format!("{}", y as u128 + ((1 + t.below(3)) as u128) * (1u128 << *t.pick(&[32u32, 64]))),
+        }
+    }
+    let two = |v: u128, t: &mut Tape| if v < 10 && t.flag() { format!("0{}", v) } else { v.to_string() };
+    let text = format!("{}-{}-{}", ytext, two(m, t), two(d, t));
+    let taste = (y == 0 || y >= 10000) && !wrap;
+    let valid = !wrap && (1..=12).contains(&m) && d >= 1 && d <= dim as u128;
+    let class = format!("{}{}{}{}", if valid { "valid" } else { "invalid" }, if taste { ".year-band" } else { "" }, if m == 2 && d >= 28 { ".feb-end" } else { "" }, if wrap { ".wrap-magnitude" } else { "" });
     (text, if valid { Some((y, m as u8, d as u8)) } else { None }, class, taste)
 }
 
@@ -439,10 +456,23 @@ fn gen_tod_fields(t: &mut Tape, g: &Gates) -> (String, Option<(u8, u8, u8, u32)>
         }
         _ => t.below(60) as u32,
     };
-    let two = |v: u32, t: &mut Tape| if v < 10 && t.flag() { format!("0{}", v) } else { v.to_string() };
+    let two = |v: u128, t: &mut Tape| if v < 10 && t.flag() { format!("0{}", v) } else { v.to_string() };
     let mut micro = 0u32;
-    let mut text = format!("{}:{}:{}", two(h, t), two(m, t), two(s, t));
+    let (mut hh, mut mm, mut ss) = (h as u128, m as u128, s as u128);
+    let mut wrap = false;
+    if t.ratio(1, 8) && h < 24 && m < 60 && s < 60 {
+        wrap = true;
+        match t.below(3) {
+            0 => hh = wrapped(h, t),
+            1 => mm = wrapped(m, t),
+            _ => ss = wrapped(s, t),
+        }
+    }
+    let mut text = format!("{}:{}:{}", two(hh, t), two(mm, t), two(ss, t));
     let mut class = String::new();
+    if wrap {
+        class.push_str(".wrap-magnitude");
+    }
     if t.ratio(1, 4) && g.want("TOD_FRACTION") {
         let fd = 1 + t.below(3);
         let mut fr = String::new();
@@ -453,7 +483,7 @@ fn gen_tod_fields(t: &mut Tape, g: &Gates) -> (String, Option<(u8, u8, u8, u32)>
         text = format!("{}.{}", text, fr);
         class.push_str(".fraction");
     }
-    let valid = h < 24 && m < 60 && s < 60;
+    let valid = !wrap && h < 24 && m < 60 && s < 60;
     let class = format!("{}{}", if valid { "valid" } else { "invalid" }, class);
     (text, if valid { Some((h as u8, m as u8, s as u8, micro)) } else { None }, class)
 }
@@ -552,22 +582,23 @@ fn gen_address(t: &mut Tape, g: &Gates) -> Lit {
     let mut multi = false;
     let mut parts = vec![];
     for _ in 0..n {
-        let v: u64 = if g.want("ADDRESS_MULTI_DIGIT") {
-            match t.below(6) {
-                0 => t.below(10) as u64,
-                1 => 10 + t.below(90) as u64,
-                2 => t.u16() as u64,
+        let v: u128 = if g.want("ADDRESS_MULTI_DIGIT") {
+            match t.below(7) {
+                0 => t.below(10) as u128,
+                1 => 10 + t.below(90) as u128,
+                2 => t.u16() as u128,
                 3 => 4294967295,
                 4 => 4294967296,
-                _ => t.below(10000) as u64,
+                5 => wrapped(t.below(100) as u32, t) << 24,
+                _ => t.below(10000) as u128,
             }
         } else {
-            t.below(10) as u64
+            t.below(10) as u128
         };
         if v >= 10 {
             multi = true;
         }
-        if v > u32::MAX as u64 {
+        if v > u32::MAX as u128 {
             over = true;
         }
         comps.push(v as u32);
